@@ -465,6 +465,60 @@ def csv_time_axis(chk):
             chk.violation("time-csv", r["cfg"], {"month_ends_without_a_row": missing[:6]}, "a breakpoint (row) at the end of every calendar month")
 
 
+def ghe_level_energy(chk):
+    """C06 on the hybrid loads a real GHE object carries — built by GHE.__init__ from the hourly list it is handed (also a leap year of
+    loads with load_years=[2020]) and read AFTER the object was simulated / sized, as a design run leaves it"""
+    rng = chk.rng
+    cases = []
+    for months, ly, ops in [(13, None, ["simulate"]), (12, [2020], []), (25, [2020], ["simulate"])] + \
+                           ([] if chk.tier == "quick" else [(1, None, ["simulate"]), (24, None, ["size"]), (37, None, ["simulate"]), (14, [2024], ["simulate"]), (49, [2020], [])]):
+        kind = rng.choice(["balanced", "spiky", "mixed_days", "cooling"])
+        nh = 8784 if ly else 8760
+        cases.append({"nx": 1, "ny": 2, "months": months, "H": 100.0, "heights": [60.0, 97.5, 135.0], "loads": {"kind": kind, "scale": 9000.0, "seed": rng.randrange(1, 10 ** 6)},
+                      "load_years": ly, "extra_day": bool(ly), "ops": ops,
+                      # loads on the very last day of the (leap) year and on 29 February
+                      "spikes": [[nh - 1 - rng.randrange(0, 20), -23000.0], [nh - 30, 17000.0]] + ([[1416 + 5, -21000.0]] if ly else [])})
+    from concurrent.futures import ThreadPoolExecutor
+    with ThreadPoolExecutor(max_workers=NPROC) as ex:
+        rs = list(ex.map(lambda c: run_impl("ghe_drv.py", {"mode": "hybrid", "cases": [c]}, timeout=1500), cases))
+    n = 0
+    for c, rr in zip(cases, rs):
+        if isinstance(rr, dict) and "_error" in rr:
+            chk.broken.append({"name": "real GHE run failed in the harness (hybrid loads of a GHE)", "detail": rr["_error"][-300:]})
+            continue
+        o = rr[0]
+        if not o.get("ok"):
+            chk.broken.append({"name": "real GHE run failed (hybrid loads of a GHE)", "detail": json.dumps(o)[-300:]})
+            continue
+        chk.cov["evaluations"] += 1
+        leap = bool(c["load_years"])
+        days = [31, 29 if leap else 28, 31, 30, 31, 30, 31, 31, 30, 31, 30, 31]
+        nh = 24 * sum(days)
+        ends = [0]
+        for i in range(c["months"]):
+            ends.append(ends[-1] + 24 * days[i % 12])
+        hourly, hour, load = o["hourly"], o["hour"], o["load"]
+        pos = 1
+        for m in range(1, c["months"] + 1):
+            cand = [k for k in range(pos, len(hour)) if hour[k] == ends[m]]
+            if not cand:
+                if len(chk.violations) < 4:
+                    chk.violation("ghe-hybrid", c, {"month": m, "month_end_h": ends[m], "last_breakpoints": hour[-3:]}, "a breakpoint at the end of every simulated month (the month integral is taken between them)")
+                break
+            b = cand[-1]
+            e = sum(load[k] * (hour[k] - hour[k - 1]) for k in range(pos + 1, b + 1))
+            a0 = ends[m - 1] % nh
+            net = -sum(hourly[a0:a0 + ends[m] - ends[m - 1]]) / 1000.0
+            n += 1
+            if abs(e - net) > 1e-7 * max(1.0, abs(net)):
+                if len(chk.violations) < 4:
+                    chk.violation("ghe-hybrid", c, {"month": m, "hybrid_integral_kWh": e, "net_hourly_kWh": net},
+                                  "the month's hybrid integral equals its net hourly load (rejection minus extraction) — on the loads the GHE object carries after the run")
+                break
+            pos = b
+    return n
+
+
 def design_level_loads(chk):
     """C07 on whole designs: the hybrid loads the returned design carries (monthly totals, peaks, peak durations) are those of a hybrid
     load built from scratch for the REQUESTED hourly loads and the returned field — also with a system flow (the flow per borehole, and
@@ -561,6 +615,8 @@ def run_hybrid_check(chk, which, props_file, extra_models):
         csv_time_axis(chk)
     if which == "C07":
         design_level_loads(chk)
+    if which == "C06" and len(chk.violations) < 4:
+        nontrivial += ghe_level_energy(chk)
     # listed findings are re-run on their exact input
     for kf in chk.open_findings("hybrid-profile"):
         r = run_impl("hybrid.py", {"profiles": [kf["input"]]})
